@@ -12,6 +12,8 @@ type G struct {
 	// knobs
 	NoComments bool
 	NoTabs     bool
+	// BackslashR: `\r` is among the backslash sequences that are ordinary text (RFC 6020 6.1.3 substitutes \n \t \" \\ only)
+	BackslashR bool
 }
 
 func (g *G) Pick(n int, l string) int { return rapid.IntRange(0, n-1).Draw(g.T, l) }
@@ -121,6 +123,10 @@ func (g *G) dqBody() string {
 			atoms = append(atoms, "w")
 		case 1, 2:
 			if g.Pick(5, "oddesc") == 0 {
+				if g.BackslashR && g.Pick(4, "oddr") == 0 {
+					atoms = append(atoms, "\\r")
+					continue
+				}
 				atoms = append(atoms, dqOdd[g.Pick(len(dqOdd), "odd")])
 				continue
 			}
